@@ -28,7 +28,7 @@ def predicted_ok(c):
 
 def run(chk):
     thorough = chk.tier == "thorough"
-    chk.assumptions += ["schedule points only at commit.captured (statements are atomic steps)", "both rows on one table page", "kill snapshot = byte copy of the directory after the schedule"]
+    chk.assumptions += ["schedule points at commit.captured, gc.check (wait loop of the group-commit queue) and commit.flush.begin (statements are atomic steps)", "both rows on one table page", "kill snapshot = byte copy of the directory after the schedule"]
     vlib.build_harness(); chk.mark("build")
     mc = vlib.run_tlc("MC_CommitOrder.tla", os.path.join(vlib.SPEC, "MC_CommitOrder.cfg"), coverage=True, timeout=600)
     vlib.tlc_ok(mc, "MC_CommitOrder")
@@ -73,7 +73,13 @@ def run(chk):
         if bad_early:
             chk.stale.append("schedule %s: COMMIT of %s returned early although the model captured a page" % (sched, bad_early))
             continue
+        want_batches = [h["n"] for h in c["hist"] if h["a"] == "elect"]
+        if r.get("batch_sizes", []) != want_batches:
+            chk.stale.append("schedule %s: the flush leaders took batches of %s commits, CommitOrder.tla says %s" % (sched, r.get("batch_sizes"), want_batches))
+            continue
         stats["followed"] += 1
+        if any(n >= 2 for n in want_batches):
+            stats["with_a_batch_of_two_or_more"] = stats.get("with_a_batch_of_two_or_more", 0) + 1
         rec = r["recovered"]
         if not isinstance(rec, dict) or "rows" not in rec:
             chk.violation("recovery_failed_after_concurrent_commits", rep)
@@ -94,6 +100,8 @@ def run(chk):
             chk.classify("older_image_logged_after_newer:capture_then_submit", rep)
     if stats["followed"] < 0.8 * len(cases):
         raise vlib.ToolError("only %d of %d schedules could be followed on the real code" % (stats["followed"], len(cases)))
+    if not stats.get("with_a_batch_of_two_or_more"):
+        raise vlib.ToolError("no schedule in which a flush leader took two commits was followed: the group-commit part is vacuous")
     if not stats["ok_as_predicted"]:
         raise vlib.ToolError("no schedule was judged as conforming: vacuous run")
     chk.cov = {"states": mc["stats"].get("distinct", 0), "transitions": mc["stats"].get("generated", 0),
@@ -107,7 +115,7 @@ def run(chk):
 def replay(chk, path):
     rep = json.load(open(path))["replay"]
     vlib.build_harness()
-    case = {"id": 0, "threads": max(t for t, _ in rep["schedule"]), "hist": [{"t": t, "a": a} for t, a in rep["schedule"]]}
+    case = {"id": 0, "threads": max(x[0] for x in rep["schedule"]), "hist": [{"t": x[0], "a": x[1]} for x in rep["schedule"]]}
     inp, outp = vlib.scratch() + "/co_in.ndjson", vlib.scratch() + "/co_out.ndjson"
     vlib.write_ndjson(inp, [case])
     vlib.run_vh(["commit-order", "--in", inp, "--out", outp], timeout=600)
